@@ -161,9 +161,11 @@ class BasicDBusProtocol(protocol.Protocol):
                     )
                     self._unix_creds = struct.unpack('3i', cd)
 
-            lines = (self._buffer + data).split(self.authDelimiter)
-            self._buffer = lines.pop(-1)
-            for line in lines:
+            self._buffer = self._buffer + data
+            # Consume one line at a time: whatever follows the line that
+            # completes authentication is binary message data and must stay
+            # in the buffer untouched (it may contain the delimiter).
+            while self.authDelimiter in self._buffer:
                 if self.transport.disconnecting:
                     # this is necessary because the transport may be
                     # told to lose the connection by a line within a
@@ -171,6 +173,8 @@ class BasicDBusProtocol(protocol.Protocol):
                     # all the lines in that packet following the one
                     # that told it to close.
                     return
+                line, _, self._buffer = self._buffer.partition(
+                    self.authDelimiter)
                 if len(line) > self.MAX_AUTH_LENGTH:
                     return self.authMessageLengthExceeded(line)
                 else:
@@ -182,6 +186,7 @@ class BasicDBusProtocol(protocol.Protocol):
                             self.setAuthenticationSucceeded()
                             if self._buffer:
                                 self.dataReceived(b'')
+                            return
                     except error.DBusAuthenticationFailed as e:
                         log.msg('DBus Authentication failed: ' + str(e))
                         self.transport.loseConnection()
